@@ -298,7 +298,7 @@ func runC07(c *fw.Ctx) {
 		if r.Bool() {
 			root = spec.Obj
 		}
-		a := spec.GenTree(r, spec.Opts{MaxDepth: r.Range(1, 5), MaxWidth: r.Range(1, 5), Root: root, ScalarBias: r.Range(4, 8)})
+		a := spec.GenTree(r, spec.Opts{MaxDepth: r.Range(1, 5), MaxWidth: r.Range(1, 5), Root: root, ScalarBias: r.Range(4, 8), Wide: true})
 		b, desc := editTree(r, a)
 		c.Count("edit/" + desc[:minInt(len(desc), 14)])
 		c07Pair(c, r, a, b, desc)
